@@ -173,8 +173,30 @@ impl Arithmetic for i128 {
     }
 }
 
+/// Asset lists are turned into canonical assets to do arithmetic on them, which only works
+/// for constant amounts: anything else (`Ada("abc")`) is an invalid operand, not a panic.
+fn ensure_constant_amounts(assets: &[AssetExpr]) -> Result<(), Error> {
+    match assets.iter().find(|x| x.amount.as_number().is_none()) {
+        Some(x) => Err(Error::InvalidUnaryOp(
+            "asset amount".to_string(),
+            format!("{:?}", x.amount),
+        )),
+        None => Ok(()),
+    }
+}
+
+fn ensure_constant_operand(expr: &Expression) -> Result<(), Error> {
+    match expr {
+        Expression::Assets(x) => ensure_constant_amounts(x),
+        _ => Ok(()),
+    }
+}
+
 impl Arithmetic for Expression {
     fn add(self, other: Expression) -> Result<Expression, Error> {
+        ensure_constant_operand(&self)?;
+        ensure_constant_operand(&other)?;
+
         match self {
             Expression::None => Ok(other),
             Expression::Number(x) => Arithmetic::add(x, other),
@@ -188,6 +210,9 @@ impl Arithmetic for Expression {
     }
 
     fn sub(self, other: Expression) -> Result<Expression, Error> {
+        ensure_constant_operand(&self)?;
+        ensure_constant_operand(&other)?;
+
         match self {
             Expression::None => Ok(other),
             Expression::Number(x) => Arithmetic::sub(x, other),
@@ -201,6 +226,8 @@ impl Arithmetic for Expression {
     }
 
     fn neg(self) -> Result<Expression, Error> {
+        ensure_constant_operand(&self)?;
+
         match self {
             Expression::None => Ok(Expression::None),
             Expression::Number(x) => Arithmetic::neg(x),
@@ -639,7 +666,10 @@ impl Composite for Coerce {
             Self::NoOp(x) => Ok(Self::NoOp(x)),
             Self::IntoAssets(x) => Ok(Self::NoOp(x.into_assets()?)),
             Self::IntoDatum(x) => Ok(Self::NoOp(x.into_datum()?)),
-            Self::IntoScript(x) => todo!(),
+            Self::IntoScript(x) => Err(Error::InvalidUnaryOp(
+                "coerce into script".to_string(),
+                format!("{x:?}"),
+            )),
         }
     }
 }
